@@ -454,6 +454,9 @@ func callMethod(fr *frame, recv iface, name string, args ...value) value {
 	if recv.t == nil {
 		panic("method invoked on nil interface")
 	}
+	if recv.t == errorType && name == "Error" {
+		return recv.v
+	}
 	ms := fr.i.prog.MethodSets.MethodSet(recv.t)
 	for k := 0; k < ms.Len(); k++ {
 		sel := ms.At(k)
